@@ -103,6 +103,9 @@ def _mentions_arrays(goal):
 
 
 def run_check(repo, chk: Check, tier, prefix):
+    from . import numeval as _nv
+    _nv.TERM_SHAPES.clear()
+    _nv.FUNC_SHAPES.clear()
     H = Harness(repo, chk)
     t0 = time.time()
     out = []
@@ -164,9 +167,14 @@ def run_check(repo, chk: Check, tier, prefix):
                 nv = numeval.validate(o, inf.get("model"), o.meta["numeric"], seed=int(os.environ.get("VERIF_SEED", "0") or 0))
                 if nv["status"] == "spurious":
                     r = "unknown"
-                    inf = {"reason": "counter-model not realisable: under the standard interpretation of the operators the code term and the "
-                                     f"spec term agree on {nv['admissible_samples']} admissible sampled inputs (families {', '.join(nv['families'])}); "
-                                     "syntactically different terms, undecided by the deductive arm"}
+                    if nv.get("unreached_path"):
+                        inf = {"reason": "counter-model not realisable: no sampled input satisfies this path's condition under the standard "
+                                         f"interpretation of the operators ({nv['samples_tried']} draws incl. boundary values): the path looks "
+                                         "unreachable; undecided by the deductive arm"}
+                    else:
+                        inf = {"reason": "counter-model not realisable: under the standard interpretation of the operators the code term and the "
+                                         f"spec term agree on {nv['admissible_samples']} admissible sampled inputs (families {', '.join(nv['families'])}); "
+                                         "syntactically different terms, undecided by the deductive arm"}
                 else:
                     inf = dict(inf)
                     inf["numeric"] = nv
